@@ -226,7 +226,7 @@ def _lsb_pack(segs):
     return acc.to_bytes((n + 7) // 8, "little"), n
 
 
-def check_bit_rw(rep, tier, rng, drv):
+def check_bit_rw(rep, tier, rng, drv, run=None):
     """Raw bit packing through the bit writer / bit reader pair of core/bitpack.c (nothing in the library calls it):
     uniform widths 1..32 x counts, mixed write_bit / write_bits / write_bits64 sequences incl. zero-width writes.
     Oracle: bytes = LSB-first layout of the masked values, bytes_written = ceil(bits/8), the reader returns the
@@ -281,8 +281,17 @@ def check_bit_rw(rep, tier, rng, drv):
     impl, p1 = run_sharded(drv, lines)
     for pr in p1:
         rep.violation("bit writer / reader / level encoder crashed or sanitizer report: %s" % pr[2][-500:], {"case": pr[3]})
-    for li, a, e in zip(lines[:nlv], impl[:nlv], exp):
+    model = None
+    if run is not None:
+        nb = sum(1 for l in lines[:nlv] if l.startswith("bitrw"))
+        model, p2 = run_sharded(run, lines[:nb])
+        for pr in p2:
+            rep.tie_broken("model runner died: %s" % pr[2][-300:], pr[3])
+        model = list(model) + [None] * (nlv - nb)
+    for k, (li, a, e) in enumerate(zip(lines[:nlv], impl[:nlv], exp)):
         rep.count(li, nontrivial=len(li) > 8)
+        if a == e and model is not None and model[k] is not None and model[k] != a:
+            rep.tie_broken("BitRwModel (extracted) differs from the bit writer / reader of core/bitpack.c: model %s impl %s" % (model[k][:120], a[:120]), li)
         if a != e:
             what = ("the raw bit writer / reader pair does not return the values written in the Parquet LSB-first layout"
                     if li.startswith("bitrw") else "carquet_get_bitunpack8_fn returns a function that does not unpack that width")
@@ -434,7 +443,7 @@ def run(tier):
     check_rle(rep, tier, rng, drv, run_)
     check_rle_long_runs(rep, tier, rng, drv)
     check_rle_encoder_api(rep, tier, rng, drv, run_)
-    ll, li_, lv = check_bit_rw(rep, tier, rng, drv)
+    ll, li_, lv = check_bit_rw(rep, tier, rng, drv, run_)
     check_level_encoder(rep, tier, rng, drv, run_, ll, li_, lv)
     try:
         import c11_enc2
